@@ -3,7 +3,7 @@
 // C02 — No input can crash, hang or exhaust the process.
 //
 // Bounded-exhaustive fault enumeration: every site of a fixed fault catalogue on a set of small
-// valid generated documents (8 PDF layouts, DOCX, ODT, XLSX, PPTX, EPUB2, EPUB3, HTML) x the public
+// valid generated documents (9 PDF layouts, DOCX, ODT, XLSX, PPTX, EPUB2, EPUB3, HTML) x the public
 // entry points. Built against an instrumented copy of tabula (build.sh / cmd/instr -budgets): a
 // step counter at every function entry and loop head, a call-depth counter and a guard on every
 // non-constant make()/Repeat size turn "hangs", "runaway recursion" and "attacker-sized
@@ -432,7 +432,7 @@ func (r *runner) build(bi *baseInfo, d *doc) {
 				t := applySpanEdits(p.text, same)
 				if p.kind == "body" {
 					d.ctx.frags = append(d.ctx.frags, frag{role: "objbody", data: t})
-				} else {
+				} else if isTextual(p.text) {
 					role := "content"
 					if bytes.Contains(p.text, []byte("begincmap")) {
 						role = "cmap"
@@ -511,7 +511,7 @@ func rolesTouched(bi *baseInfo, eds []edit) map[string]bool {
 			case "data":
 				if bytes.Contains(p.text, []byte("begincmap")) {
 					t["cmap"] = true
-				} else {
+				} else if isTextual(p.text) {
 					t["content"] = true
 				}
 			}
